@@ -265,3 +265,50 @@ HARNESSES.append(dual_harness(
                   for a, b in (((2, 2),) if tier == "quick" else ((2, 2), (1, 3), (3, 2)))],
     ["skactiveml.classifier._wrapper:SklearnClassifier._fit", "skactiveml.regressor._wrapper:SklearnRegressor._fit"],
     required_witnesses=("both_fits_with_labels",)))
+
+
+def sc_param_objects(d, kind):
+    """estimator-valued constructor parameters are never fitted or replaced by fit: the fitted copy lives in the
+    trailing-underscore attribute (MixtureModelClassifier.mixture_model, SklearnClassifier/Regressor.estimator,
+    SlidingWindowClassifier.estimator)"""
+    NAN = float("nan")
+    X = d.arr([[0.0], [1.0]], shape=(2, 1))
+    lab = [d.choose(f"label{i}", [-1, 0, 1]) for i in range(2)]
+    y = d.arr([NAN if k < 0 else float(k) for k in lab])
+    if kind == "mixture":
+        from harness.C11 import _stub_mixture
+        from skactiveml.classifier import MixtureModelClassifier
+        param = _stub_mixture(d, 2)
+        est = MixtureModelClassifier(mixture_model=param, classes=[0.0, 1.0])
+        fitted_attr, param_name = "mixture_model_", "mixture_model"
+    elif kind == "sklearn_classifier":
+        from skactiveml.classifier import SklearnClassifier
+        param = _warm_classifier(d.np)
+        est = SklearnClassifier(param, classes=[0.0, 1.0])
+        fitted_attr, param_name = "estimator_", "estimator"
+    elif kind == "sliding_window":
+        from harness.C19 import make_recording
+        from skactiveml.classifier import SlidingWindowClassifier
+        param = make_recording(False, d.np)
+        est = SlidingWindowClassifier(param, classes=[0.0, 1.0], window_size=2)
+        fitted_attr, param_name = "estimator_", "estimator"
+    else:
+        from skactiveml.regressor import SklearnRegressor
+        param = _warm_regressor(d.np)
+        est = SklearnRegressor(param)
+        fitted_attr, param_name = "estimator_", "estimator"
+    before = sorted(vars(param))
+    est.fit(X, y)
+    d.prove(getattr(est, param_name) is param, "fit_keeps_the_parameter_object", info=dict(parameter=param_name))
+    d.prove(getattr(est, fitted_attr, None) is not param, "fitted_copy_is_not_the_parameter", info=dict(attribute=fitted_attr))
+    d.prove(sorted(vars(param)) == before, "fit_leaves_the_parameter_unfitted",
+            info=dict(new_attributes=[k for k in vars(param) if k not in before]))
+    d.witness(any(k >= 0 for k in lab), "some_labeled")
+
+
+HARNESSES.append(dual_harness(
+    "estimator_parameters_untouched", sc_param_objects,
+    lambda tier: [dict(kind=k) for k in ("mixture", "sklearn_classifier", "sliding_window", "sklearn_regressor")],
+    ["skactiveml.classifier._mixture_model_classifier:MixtureModelClassifier.fit", "skactiveml.classifier._wrapper:SklearnClassifier._fit",
+     "skactiveml.classifier._wrapper:SlidingWindowClassifier.fit", "skactiveml.regressor._wrapper:SklearnRegressor._fit"],
+    required_witnesses=("some_labeled",)))
